@@ -228,7 +228,8 @@ func newFinishedHash(version uint16, cipherSuite *cipherSuite) finishedHash {
 
 	if version == VersionGMSSL {
 		prf = prfAndHashForGM()
-		return finishedHash{sm3.New(), sm3.New(), nil, nil, buffer, version, prf}
+		// VersionGMSSL is numerically below TLS 1.2, so Write also feeds the MD5 pair: it must not be nil
+		return finishedHash{sm3.New(), sm3.New(), new(nilMD5Hash), new(nilMD5Hash), buffer, version, prf}
 	} else {
 		var hash crypto.Hash
 		prf, hash = prfAndHashForVersion(version, cipherSuite)
